@@ -1,2 +1,308 @@
-(** C08 — placeholder while the proofs are being written (replaced below). *)
-From RepeV Require Import Model.Beve Proofs.BeveProofs.
+(** C08 — Bulk numeric bodies are bit-identical to the generic encoding and
+    decode exactly.
+
+    Model: Model/Beve.v (the BEVE wire forms of the dependency [beve] 8.0.0,
+    modelled from its source, and repe's glue around them).  Elements are bit
+    patterns below [256^width]; NaN payloads, infinities and extreme integers
+    are ordinary values.  Bounds, stated once in [slice_ok]: the descriptor has
+    the shape of the table's entries ([ety_ok]), every element fits its width,
+    the length is below 2^62 (the SIZE codec's range, [SIZE_MAX]) and the
+    payload below 2^62 bytes.
+    This file contains only statements (closed by [exact]), their pins and
+    their assumptions, and computed examples. *)
+From RepeV Require Import Model.Beve Proofs.MessageProofs Proofs.BeveProofs.
+
+(** the compressed SIZE codec loses nothing below 2^62 *)
+Theorem C08_size_roundtrip : forall n rest,
+  n < SIZE_MAX -> size_dec (size_enc n ++ rest) = Some (n, rest).
+Proof. exact size_roundtrip. Qed.
+
+(** a non-empty slice: the bulk body IS the serde body, byte for byte *)
+Theorem C08_bulk_eq_generic : forall t xs, xs <> [] -> enc_bulk t xs = enc_generic t xs.
+Proof. exact bulk_eq_generic. Qed.
+
+(** each decoder reads the other encoder's output — for EVERY slice, the
+    empty one included (serde emits the generic empty array [05 00] for it) *)
+Theorem C08_cross_decode : forall t xs, slice_ok t xs = true ->
+  dec_bulk t (enc_generic t xs) = DOk xs /\ dec_generic t (enc_bulk t xs) = DOk xs.
+Proof. exact cross_decode. Qed.
+
+(** decode after encode is the identity on bit patterns, for every element
+    type: repe's bulk decoder, serde, beve's raw bulk reader (trailing bytes
+    ignored) and the owned read of the aligned form *)
+Theorem C08_bit_exact : forall t xs, slice_ok t xs = true ->
+  dec_bulk t (enc_bulk t xs) = DOk xs /\ dec_generic t (enc_generic t xs) = DOk xs /\
+  (forall rest, beve_read_typed_slice t (enc_bulk t xs ++ rest) = DOk xs) /\
+  (forall base rest, dec_aligned t (enc_aligned t base xs ++ rest) = DOk xs).
+Proof. exact bit_exact. Qed.
+
+(** the same for complex slices ([zs] is the flattened list of (re, im)) *)
+Theorem C08_complex_bit_exact : forall t zs, slice_ok t zs = true -> lenN zs mod 2 = 0 ->
+  (zs <> [] -> enc_complex t zs = enc_generic_complex t zs) /\
+  read_complex_slice_compat t (enc_complex t zs) = DOk zs /\
+  read_complex_slice_compat t (enc_generic_complex t zs) = DOk zs /\
+  dec_generic_complex t (enc_complex t zs) = DOk zs /\
+  dec_generic_complex t (enc_generic_complex t zs) = DOk zs.
+Proof. exact complex_bit_exact. Qed.
+
+(** the streaming writers, given the header of any message of the same
+    builder, put on the wire exactly the frame of the buffered path; the
+    declared body length is the closed-form size *)
+Theorem C08_streamed_eq_buffered : forall b t xs,
+  concat (stream_typed_slice (m_hdr (build b)) (b_query b) t xs)
+  = concat (write_chunks (build (body_typed_slice b t xs))).
+Proof. exact streamed_eq_buffered_typed. Qed.
+
+Theorem C08_streamed_eq_buffered_complex : forall b t zs,
+  concat (stream_complex_slice (m_hdr (build b)) (b_query b) t zs)
+  = concat (write_chunks (build (body_complex_slice b t zs))).
+Proof. exact streamed_eq_buffered_complex. Qed.
+
+Theorem C08_sizes_exact : forall t base xs,
+  typed_slice_size t xs = lenN (enc_bulk t xs) /\
+  complex_slice_size t xs = lenN (enc_complex t xs) /\
+  aligned_typed_slice_size t base xs = lenN (enc_aligned t base xs).
+Proof.
+  intros t base xs. split; [apply typed_slice_size_eq|split; [apply complex_slice_size_eq|]].
+  symmetry. apply aligned_size_eq.
+Qed.
+
+(** the aligned body built for a query of any length: its element block
+    starts, counted from the frame start (48-byte header, query, body), on a
+    multiple of the element alignment *)
+Theorem C08_aligned_offset : forall b t xs, slice_ok t xs = true ->
+  let body := m_body (build (body_aligned_typed_slice b t xs)) in
+  exists off, parse_aligned t body = DOk (off, lenN xs, payload t xs) /\
+              (HEADER_SIZE + lenN (b_query b) + off) mod e_align t = 0.
+Proof. exact aligned_offset. Qed.
+
+(** the borrowing decode, for every buffer address: the same elements as the
+    owned decode; borrowed exactly when the block is aligned in memory, copied
+    otherwise; regular and serde bodies are always copied *)
+Theorem C08_ref_same_elements : forall t base addr xs, slice_ok t xs = true ->
+  dmap si_elems (dec_ref t addr (enc_aligned t base xs)) = dec_aligned t (enc_aligned t base xs) /\
+  dec_ref t addr (enc_aligned t base xs)
+  = DOk (if (addr + aligned_data_off t base (lenN xs)) mod e_align t =? 0 then SBorrowed xs else SOwned xs) /\
+  dec_ref t addr (enc_bulk t xs) = DOk (SOwned xs) /\
+  dec_ref t addr (enc_generic t xs) = DOk (SOwned xs).
+Proof. exact ref_same_elements. Qed.
+
+(** a frame received at an aligned address IS borrowed, for every query length *)
+Theorem C08_aligned_frame_borrowed : forall t (q : list byte) fa xs,
+  slice_ok t xs = true -> fa mod e_align t = 0 ->
+  dec_ref t (fa + HEADER_SIZE + lenN q) (enc_aligned t (HEADER_SIZE + lenN q) xs) = DOk (SBorrowed xs).
+Proof. exact aligned_frame_borrowed. Qed.
+
+(** decoding with another element type is an error, never a
+    reinterpretation; and the table's types have pairwise distinct tags *)
+Theorem C08_wrong_type_rejected : forall t u xs base addr,
+  ety_ok t = true -> tag_eqb t u = false ->
+  dec_bulk u (enc_bulk t xs) = DErr BMismatch /\
+  (xs <> [] -> dec_bulk u (enc_generic t xs) = DErr BMismatch) /\
+  dec_aligned u (enc_aligned t base xs) = DErr BMismatch /\
+  dec_ref u addr (enc_aligned t base xs) = DErr BMismatch /\
+  dec_ref u addr (enc_bulk t xs) = DErr BMismatch.
+Proof. exact wrong_type_rejected. Qed.
+
+Theorem C08_table_tags_distinct : forall t u,
+  In t ety_all -> In u ety_all -> tag_eqb t u = true -> t = u.
+Proof. exact ety_all_tag_inj. Qed.
+
+Theorem C08_table_ok : forall t, In t ety_all -> ety_ok t = true.
+Proof. exact ety_all_In_ok. Qed.
+
+(** the aligned form and a complex body are not plain typed arrays *)
+Theorem C08_other_forms_rejected : forall u t base xs, ety_ok u = true ->
+  dec_bulk u (enc_aligned t base xs) = DErr BMismatch /\
+  dec_bulk u (enc_complex t xs) = DErr BInvalidType.
+Proof. intros u t base xs H. split; [now apply dec_bulk_aligned|apply dec_bulk_complex]. Qed.
+
+(** a body under another format code is refused by the decoders (structured
+    error) and by the bulk routes (InvalidBody response) *)
+Theorem C08_wrong_format_rejected : forall t u m, h_bfmt (m_hdr m) <> BODY_BEVE ->
+  decode_typed_slice t m = DErr BFormat /\ decode_complex_slice u m = DErr BFormat /\
+  route_slice t (h_bfmt (m_hdr m)) (m_body m) = DErr BRemote /\
+  (forall addr, route_ref t (h_bfmt (m_hdr m)) addr (m_body m) = DErr BRemote).
+Proof. exact wrong_format_rejected. Qed.
+
+(** every live pairing of client helper and echo route returns the original
+    bit patterns, wherever the request lands in memory *)
+Theorem C08_live_calls : forall t qlen addr xs, slice_ok t xs = true ->
+  live_call RSlice CBulk t qlen addr xs = DOk xs /\ live_call RSlice CSerde t qlen addr xs = DOk xs /\
+  live_call RRef CBulk t qlen addr xs = DOk xs /\ live_call RRef CSerde t qlen addr xs = DOk xs /\
+  live_call RRef CAligned t qlen addr xs = DOk xs /\
+  live_call RTyped CBulk t qlen addr xs = DOk xs /\ live_call RTyped CSerde t qlen addr xs = DOk xs /\
+  live_call RSlice CAligned t qlen addr xs = DErr BRemote.
+Proof. exact live_calls. Qed.
+
+(** the executable oracle (also applied to the implementation's
+    observations) accepts the model on every well-formed case *)
+Theorem C08_holds : forall c, c08_wf c = true -> ok_C08 c (model_C08 c) = true.
+Proof. exact ok_model_C08. Qed.
+
+(** ** non-vacuity and computed examples *)
+
+(** f64 bit patterns: a quiet NaN with payload, -inf, the smallest subnormal *)
+Definition c08_f64s : list N := [9221120237041090561; 18442240474082181120; 1].
+
+Example C08_example_bulk :
+  enc_bulk ty_f64 c08_f64s
+  = [100; 12; 1; 0; 0; 0; 0; 0; 248; 127; 0; 0; 0; 0; 0; 0; 240; 255; 1; 0; 0; 0; 0; 0; 0; 0] /\
+  enc_generic ty_f64 c08_f64s = enc_bulk ty_f64 c08_f64s /\
+  enc_generic ty_f64 [] = [5; 0] /\ enc_bulk ty_f64 [] = [100; 0] /\
+  slice_ok ty_f64 c08_f64s = true.
+Proof. vm_compute. repeat split; reflexivity. Qed.
+
+(** SIZE: the four widths *)
+Example C08_example_size :
+  size_enc 63 = [252] /\ size_enc 64 = [1; 1] /\ size_enc 16383 = [253; 255] /\
+  size_enc 16384 = [2; 0; 1; 0] /\ size_enc 1073741824 = [3; 0; 0; 0; 1; 0; 0; 0].
+Proof. vm_compute. repeat split; reflexivity. Qed.
+
+(** the aligned form for a 6-byte query (base 54): marker, f64 header, SIZE,
+    PADLEN = 6, six zero bytes, then the block at frame offset 64 *)
+Example C08_example_aligned :
+  enc_aligned ty_f64 54 [1] = [92; 100; 4; 6; 0; 0; 0; 0; 0; 0; 1; 0; 0; 0; 0; 0; 0; 0] /\
+  aligned_data_off ty_f64 54 1 = 10 /\
+  dec_ref ty_f64 54 (enc_aligned ty_f64 54 [1]) = DOk (SBorrowed [1]) /\
+  dec_ref ty_f64 55 (enc_aligned ty_f64 54 [1]) = DOk (SOwned [1]) /\
+  dec_ref ty_f32 54 (enc_aligned ty_f64 54 [1]) = DErr BMismatch.
+Proof. vm_compute. repeat split; reflexivity. Qed.
+
+(** bf16 and f16 are both two bytes wide but carry different tags *)
+Example C08_example_halves :
+  enc_bulk ty_bf16 [16256] = [4; 4; 128; 63] /\ enc_bulk ty_f16 [15360] = [36; 4; 0; 60] /\
+  dec_bulk ty_f16 (enc_bulk ty_bf16 [16256]) = DErr BMismatch.
+Proof. vm_compute. repeat split; reflexivity. Qed.
+
+(** beve's raw bulk reader refuses the generic empty array; repe's wrapper
+    (the repaired behaviour) accepts it as the empty slice of any type *)
+Example C08_example_empty_generic :
+  beve_read_typed_slice ty_f64 [5; 0] = DErr BInvalidType /\ dec_bulk ty_f64 [5; 0] = DOk [] /\
+  dec_bulk ty_u8 (enc_generic ty_f64 []) = DOk [].
+Proof. vm_compute. repeat split; reflexivity. Qed.
+
+(** the hypotheses of [C08_holds] are satisfiable in every case kind *)
+Example C08_nonvacuous_wf :
+  c08_wf (KEnc ty_f64 c08_f64s [47; 97] 7) = true /\
+  c08_wf (KCplx ty_f32 ty_f64 [1; 2; 3; 4] [47] 7) = true /\
+  c08_wf (KRef ty_f64 c08_f64s 6 3 CAligned) = true /\
+  c08_wf (KWrongType ty_f64 ty_f32 c08_f64s 6 3) = true /\
+  c08_wf (KWrongFmt ty_f64 c08_f64s 2) = true /\
+  c08_wf (KNet RRef CAligned ty_f64 c08_f64s 6) = true.
+Proof. vm_compute. repeat split; reflexivity. Qed.
+
+(** the oracle is not trivially true.  It rejects: a generic body that differs
+    from the bulk one; a decoder that fails on the empty generic array (the
+    behaviour before the repair); a borrowed flag at a misaligned address; an
+    aligned frame in an aligned buffer that was copied; a wrong element type
+    that was reinterpreted *)
+Example C08_oracle_rejects :
+  let c1 := KEnc ty_u16 [513] [] 1 in
+  let o1 := model_C08 c1 in
+  ok_C08 c1 o1 = true /\
+  ok_C08 c1 (mkObs [[68; 4; 1; 2]; [5; 4; 1; 2]; nth 2 (o_bytes o1) []; nth 3 (o_bytes o1) []] (o_res o1) []) = false /\
+  let c2 := KEnc ty_u16 [] [] 1 in
+  let o2 := model_C08 c2 in
+  ok_C08 c2 o2 = true /\
+  ok_C08 c2 (mkObs (o_bytes o2) [DOk []; DErr BInvalidType; DOk []; DOk []] []) = false /\
+  let c3 := KRef ty_f64 [1] 6 3 CAligned in
+  ok_C08 c3 (model_C08 c3) = true /\ o_flags (model_C08 c3) = [false] /\
+  ok_C08 c3 (mkObs (o_bytes (model_C08 c3)) (o_res (model_C08 c3)) [true]) = false /\
+  let c4 := KRef ty_f64 [1] 6 0 CAligned in
+  ok_C08 c4 (model_C08 c4) = true /\ o_flags (model_C08 c4) = [true] /\
+  ok_C08 c4 (mkObs (o_bytes (model_C08 c4)) (o_res (model_C08 c4)) [false]) = false /\
+  let c5 := KWrongType ty_u16 ty_i16 [65535] 0 0 in
+  ok_C08 c5 (model_C08 c5) = true /\
+  ok_C08 c5 (mkObs [] [DOk [65535]; DErr BMismatch; DErr BMismatch; DErr BMismatch; DErr BMismatch] []) = false.
+Proof. vm_compute. repeat split; reflexivity. Qed.
+
+Check C08_size_roundtrip : forall n rest,
+  n < SIZE_MAX -> size_dec (size_enc n ++ rest) = Some (n, rest).
+Check C08_bulk_eq_generic : forall t xs, xs <> [] -> enc_bulk t xs = enc_generic t xs.
+Check C08_cross_decode : forall t xs, slice_ok t xs = true ->
+  dec_bulk t (enc_generic t xs) = DOk xs /\ dec_generic t (enc_bulk t xs) = DOk xs.
+Check C08_bit_exact : forall t xs, slice_ok t xs = true ->
+  dec_bulk t (enc_bulk t xs) = DOk xs /\ dec_generic t (enc_generic t xs) = DOk xs /\
+  (forall rest, beve_read_typed_slice t (enc_bulk t xs ++ rest) = DOk xs) /\
+  (forall base rest, dec_aligned t (enc_aligned t base xs ++ rest) = DOk xs).
+Check C08_complex_bit_exact : forall t zs, slice_ok t zs = true -> lenN zs mod 2 = 0 ->
+  (zs <> [] -> enc_complex t zs = enc_generic_complex t zs) /\
+  read_complex_slice_compat t (enc_complex t zs) = DOk zs /\
+  read_complex_slice_compat t (enc_generic_complex t zs) = DOk zs /\
+  dec_generic_complex t (enc_complex t zs) = DOk zs /\
+  dec_generic_complex t (enc_generic_complex t zs) = DOk zs.
+Check C08_streamed_eq_buffered : forall b t xs,
+  concat (stream_typed_slice (m_hdr (build b)) (b_query b) t xs)
+  = concat (write_chunks (build (body_typed_slice b t xs))).
+Check C08_streamed_eq_buffered_complex : forall b t zs,
+  concat (stream_complex_slice (m_hdr (build b)) (b_query b) t zs)
+  = concat (write_chunks (build (body_complex_slice b t zs))).
+Check C08_sizes_exact : forall t base xs,
+  typed_slice_size t xs = lenN (enc_bulk t xs) /\
+  complex_slice_size t xs = lenN (enc_complex t xs) /\
+  aligned_typed_slice_size t base xs = lenN (enc_aligned t base xs).
+Check C08_aligned_offset : forall b t xs, slice_ok t xs = true ->
+  let body := m_body (build (body_aligned_typed_slice b t xs)) in
+  exists off, parse_aligned t body = DOk (off, lenN xs, payload t xs) /\
+              (HEADER_SIZE + lenN (b_query b) + off) mod e_align t = 0.
+Check C08_ref_same_elements : forall t base addr xs, slice_ok t xs = true ->
+  dmap si_elems (dec_ref t addr (enc_aligned t base xs)) = dec_aligned t (enc_aligned t base xs) /\
+  dec_ref t addr (enc_aligned t base xs)
+  = DOk (if (addr + aligned_data_off t base (lenN xs)) mod e_align t =? 0 then SBorrowed xs else SOwned xs) /\
+  dec_ref t addr (enc_bulk t xs) = DOk (SOwned xs) /\
+  dec_ref t addr (enc_generic t xs) = DOk (SOwned xs).
+Check C08_aligned_frame_borrowed : forall t (q : list byte) fa xs,
+  slice_ok t xs = true -> fa mod e_align t = 0 ->
+  dec_ref t (fa + HEADER_SIZE + lenN q) (enc_aligned t (HEADER_SIZE + lenN q) xs) = DOk (SBorrowed xs).
+Check C08_wrong_type_rejected : forall t u xs base addr,
+  ety_ok t = true -> tag_eqb t u = false ->
+  dec_bulk u (enc_bulk t xs) = DErr BMismatch /\
+  (xs <> [] -> dec_bulk u (enc_generic t xs) = DErr BMismatch) /\
+  dec_aligned u (enc_aligned t base xs) = DErr BMismatch /\
+  dec_ref u addr (enc_aligned t base xs) = DErr BMismatch /\
+  dec_ref u addr (enc_bulk t xs) = DErr BMismatch.
+Check C08_table_tags_distinct : forall t u,
+  In t ety_all -> In u ety_all -> tag_eqb t u = true -> t = u.
+Check C08_table_ok : forall t, In t ety_all -> ety_ok t = true.
+Check C08_other_forms_rejected : forall u t base xs, ety_ok u = true ->
+  dec_bulk u (enc_aligned t base xs) = DErr BMismatch /\
+  dec_bulk u (enc_complex t xs) = DErr BInvalidType.
+Check C08_wrong_format_rejected : forall t u m, h_bfmt (m_hdr m) <> BODY_BEVE ->
+  decode_typed_slice t m = DErr BFormat /\ decode_complex_slice u m = DErr BFormat /\
+  route_slice t (h_bfmt (m_hdr m)) (m_body m) = DErr BRemote /\
+  (forall addr, route_ref t (h_bfmt (m_hdr m)) addr (m_body m) = DErr BRemote).
+Check C08_live_calls : forall t qlen addr xs, slice_ok t xs = true ->
+  live_call RSlice CBulk t qlen addr xs = DOk xs /\ live_call RSlice CSerde t qlen addr xs = DOk xs /\
+  live_call RRef CBulk t qlen addr xs = DOk xs /\ live_call RRef CSerde t qlen addr xs = DOk xs /\
+  live_call RRef CAligned t qlen addr xs = DOk xs /\
+  live_call RTyped CBulk t qlen addr xs = DOk xs /\ live_call RTyped CSerde t qlen addr xs = DOk xs /\
+  live_call RSlice CAligned t qlen addr xs = DErr BRemote.
+Check C08_holds : forall c, c08_wf c = true -> ok_C08 c (model_C08 c) = true.
+
+(** the bounds and the names of the statement are the plain ones *)
+Check (eq_refl : SIZE_MAX = 2 ^ 62).
+Check (eq_refl : dec_bulk = read_typed_slice_compat).
+Check (eq_refl : dec_ref = decode_ref_body).
+Check (eq_refl : dec_aligned = beve_read_aligned).
+Check (eq_refl : slice_ok = fun t xs => ety_ok t && elems_ok t xs &&
+  ((lenN xs <? SIZE_MAX) && (lenN xs * N.of_nat (e_width t) <? SIZE_MAX))).
+
+Print Assumptions C08_size_roundtrip.
+Print Assumptions C08_bulk_eq_generic.
+Print Assumptions C08_cross_decode.
+Print Assumptions C08_bit_exact.
+Print Assumptions C08_complex_bit_exact.
+Print Assumptions C08_streamed_eq_buffered.
+Print Assumptions C08_streamed_eq_buffered_complex.
+Print Assumptions C08_sizes_exact.
+Print Assumptions C08_aligned_offset.
+Print Assumptions C08_ref_same_elements.
+Print Assumptions C08_aligned_frame_borrowed.
+Print Assumptions C08_wrong_type_rejected.
+Print Assumptions C08_table_tags_distinct.
+Print Assumptions C08_table_ok.
+Print Assumptions C08_other_forms_rejected.
+Print Assumptions C08_wrong_format_rejected.
+Print Assumptions C08_live_calls.
+Print Assumptions C08_holds.
